@@ -64,6 +64,10 @@ structure Tracker where
   seq : Nat := 0
   /-- every template transmitted so far, most recent first -/
   sent : List (Nat × List IE) := []
+  /-- the session runs in JSON mode (`exp new <dom> json`) -/
+  json : Bool := false
+  /-- the outcome the connection was told to give to its next Write (`exp failnext`), not yet used up -/
+  pending : Option WriteOutcome := none
   deriving Repr
 
 inductive Obs where
@@ -168,5 +172,89 @@ def refreshVerdict (t : Tracker) (wires : List Bytes) (timeOK : Bool) : String :
     match bad with
     | [] => "holds"
     | b :: _ => "fails " ++ b
+
+/-! ## Sends whose Write was made to fail, and JSON mode (C09) -/
+
+/-- why C09 demands that SendSet refuses the set (returns an error, writes nothing) - judged on what
+    was handed to SendSet and on what was SENT before (a template counts as sent only when its
+    SendSet reported success): Undefined set type; a record for another template than the set's;
+    no template with the set's id sent; a record without that template's field count -/
+def refusalReason (t : Tracker) (d : SetDesc) : Option String :=
+  match d.ty with
+  | .undefined => some "c09:undefined-set-type"
+  | .data =>
+    if d.recs.any (fun r => r.1 != d.setId) then some "c09:set-id-mismatch"
+    else match t.sent.find? (·.1 == d.setId) with
+      | none => some "c09:data-for-unsent-template"
+      | some (_, ies) =>
+        if !(d.recs.all fun r => r.2.length == ies.length) then some "c09:field-count" else none
+  | _ => none
+
+def refusalExpected (t : Tracker) (d : SetDesc) : Bool := (refusalReason t d).isSome
+
+/-- verdict for one `exp send` in IPFIX mode; `injected` = the connection reports that it gave the
+    pending `failnext` outcome to a Write of this call. A Write that failed must leave nothing on the
+    wire, a short one at most its `k` bytes (one write); either way the send must be an error, and the
+    tracker does NOT count a template as sent (`sendVerdict` adds it only on a reported success), so a
+    data set for it that is transmitted later is `c09:data-for-unsent-template`. -/
+def sendVerdictW (t : Tracker) (d : SetDesc) (o : Obs) (injected : Bool) : Tracker × String :=
+  if !injected then sendVerdict t d o
+  else
+    let t0 := { t with pending := none }
+    match t.pending with
+    | none => (t0, "fails obs:injected-without-failnext")
+    | some .ok => sendVerdict t0 d o
+    | some .fail =>
+      match o with
+      | .err wire => if wire.isEmpty then (t0, "holds") else (t0, "fails c09:error-but-bytes-written")
+      | .ok _ _ _ => (t0, "fails c09:success-reported-for-failed-write")
+      | _ => (t0, "fails obs")
+    | some (.short k) =>
+      match o with
+      | .err wire =>
+        match wire with
+        | [] => (t0, if k = 0 then "holds" else "fails c09:short-write-lost")
+        | [w] => (t0, if w.length = k then "holds" else "fails c09:error-but-bytes-written")
+        | _ => (t0, "fails c09:error-but-bytes-written")
+      | .ok _ wire _ =>
+        -- only a "short" write of the whole message (k ≥ its length: the connection wrote all of it) is a
+        -- success; a shorter one that is reported as success fails `sendVerdict` (header length ≠ bytes written)
+        match wire with
+        | [w] => if w.length ≤ k then sendVerdict t0 d o else (t0, "fails c09:success-reported-for-short-write")
+        | _ => (t0, "fails c09:success-reported-for-short-write")
+      | _ => (t0, "fails obs")
+
+/-- what a JSON-mode send shows: writes made and whether SendSet returned an error (the text is not judged) -/
+inductive ObsJ where
+  | ok (writes : Nat)
+  | err (writes : Nat)
+  | builderr
+  | other
+  deriving Repr
+
+/-- verdict for one `exp send` of a JSON session: the refusal demand of C09 exactly as in IPFIX mode
+    (`refusalReason`); the wire-format demands (C02, C08) do not apply. A template set writes nothing
+    and counts as sent once SendSet reported success. -/
+def sendVerdictJ (t : Tracker) (d : SetDesc) (o : ObsJ) (injected : Bool) : Tracker × String :=
+  let t0 := if injected then { t with pending := none } else t
+  match o with
+  | .builderr => (t0, "holds")
+  | .other => (t0, "fails obs")
+  | .err n =>
+    if n = 0 then (t0, "holds")
+    else match refusalReason t d with
+      | some r => (t0, "fails " ++ r ++ " error-but-bytes-written")
+      | none => (t0, "holds")
+  | .ok n =>
+    match d.ty with
+    | .template =>
+      let t' := { t0 with sent := (d.recs.map fun r => (r.1, r.2.map (·.1))).reverse ++ t0.sent }
+      if n ≠ 0 then (t', "fails c09:json-template-written") else (t', "holds")
+    | .data =>
+      if n = 0 then (t0, "holds")
+      else match refusalReason t d with
+        | some r => (t0, "fails " ++ r)
+        | none => if n ≠ d.recs.length then (t0, "fails c09:json-write-count") else (t0, "holds")
+    | _ => if n = 0 then (t0, "holds") else (t0, "fails c09:undefined-set-type")
 
 end Ipfix.ExpSpec
